@@ -409,15 +409,15 @@ def enum_tracers(meta, tier, sel):
 # ---- C07: forbid stacks ----------------------------------------------------------------------------------------
 def enum_forbid(meta, tier, sel):
     quick = tier == 'quick'
-    kinds = ['allow', 'forbid', 'req', 't0']
+    kinds = ['allow', 'forbid', 'req', 't0', 'forbidv']
     masks = [0b0001, 0b0011, 0b0110, 0b1111] if not quick else [0b0001, 0b0011, 0b0110]
     order_variants = ['lifo', 'fifo']
     slen = 3
-    core_of = {'allow': 'f_allow', 'forbid': 'f_forbid', 'req': 'f_rt', 't0': 'f_t0'}
+    core_of = {'allow': 'f_allow', 'forbid': 'f_forbid', 'req': 'f_rt', 't0': 'f_t0', 'forbidv': 'f_forbid_v_w1'}
     for ks in itertools.product(kinds, repeat=3):
-        if not any(k in ('forbid', 't0') for k in ks):
+        if not any(k in ('forbid', 't0', 'forbidv') for k in ks):
             continue
-        if ks.count('allow') > 2 or ks.count('t0') > 2:
+        if ks.count('allow') > 2 or ks.count('t0') > 2 or ks.count('forbidv') > 1 or (quick and 'forbidv' in ks and 't0' in ks):
             continue
         for ms in itertools.product(masks, repeat=3):
             for calls in itertools.product(range(3), repeat=slen):
@@ -433,11 +433,13 @@ def enum_forbid(meta, tier, sel):
                             p = dict(mask=mk, val=0)
                             if k == 'req':
                                 p.update(lo=1, hi=2)
+                            if k == 'forbidv':
+                                p.update(w0=15)
                             ops.append(('exp', e, sh, slot, o, p)); exps.append(e)
                     except IndexError:
                         continue
                     for a in calls:
-                        ops.append(('call', o, 'f', a))
+                        ops.append(('callx' if ov == 'fifo' else 'call', o, 'f', a))   # fifo variant: calls issued from inside an exception handler
                     rel = list(reversed(exps)) if ov == 'lifo' else list(exps)
                     for e in rel:
                         ops.append(('rmexp', e))
